@@ -23,7 +23,7 @@ def run(seed):
                 return name, "PATCH DOES NOT APPLY", []
         if subprocess.run(["go", "build", "-o", "peg.bin", "."], cwd=wt, capture_output=True).returncode != 0:
             return name, "BUILD FAILS", []
-        ch = subprocess.run(["git", "diff", "--quiet", "--", "tree/peg.go", "tree/peg.go.tmpl", "peg.peg"], cwd=wt).returncode != 0
+        ch = subprocess.run(["git", "diff", "--quiet", "HEAD", "--", "tree/peg.go", "tree/peg.go.tmpl", "peg.peg"], cwd=wt).returncode != 0
         if ch:
             for _ in range(2):
                 if subprocess.run(["./peg.bin", "-inline", "-switch", "peg.peg"], cwd=wt, capture_output=True).returncode != 0:
